@@ -24,5 +24,5 @@ def main():
              "status": status, "group": group, "what": what, "input": inp, "fixed_in": fixed}
         d["findings"].append(e)
         print("added", e["id"])
-    json.dump(d, open(P, "w"), indent=1, ensure_ascii=False)
+    json.dump(d, open(P + ".tmp", "w"), indent=1, ensure_ascii=False); os.replace(P + ".tmp", P)
 main()
